@@ -195,7 +195,12 @@ def shard_preset(sh):
              ('setstr A %s %s' % (enc(b's'), enc(b'v')), 's', 'str', enc(b'v'), None), ('setstr A %s %s 0' % (enc(b'sl'), enc(b'v')), 'sl', 'str', enc(b'v'), 0),
              ('setint A %s 7' % enc(b'sec|x'), 'sec|x', 'int', '7', None),
              ('setstr A %s ~' % enc(b's'), 's', 'str', '~', None), ('setstr A %s ~ 0' % enc(b'sl'), 'sl', 'str', '~', 0)]      # NULL is a value too: the callback sees it
-    for pre in ([], ['setint A %s 9' % enc(b'i'), 'setint A %s 9 0' % enc(b'il')], ['parse_buf A ' + enc(b'il += {3} sec { x = 4 } sl = {a}')]):
+    # prior states: pristine; set to other values; parsed; already holding exactly the value about to be set (from a text, from setters)
+    same_text = b'i = 7 il = {7, 7} f = 2.5 s = v sl = {v} sec { x = 7 }'
+    same_set = ['setint A %s 7' % enc(b'i'), 'setint A %s 7 0' % enc(b'il'), 'setint A %s 7 1' % enc(b'il'), 'setfloat A %s 2.5' % enc(b'f'),
+                'setstr A %s %s' % (enc(b's'), enc(b'v')), 'setstr A %s %s 0' % (enc(b'sl'), enc(b'v')), 'setint A %s 7' % enc(b'sec|x')]
+    for pre in ([], ['setint A %s 9' % enc(b'i'), 'setint A %s 9 0' % enc(b'il')], ['parse_buf A ' + enc(b'il += {3} sec { x = 4 } sl = {a}')],
+                ['parse_buf A ' + enc(same_text)], same_set):
         for mode in (0, 1, 2):
             for (line, name, kind, val, idx) in calls:
                 snapref = 'A/' + '/'.join((enc(p.encode())[1:] + ('.0' if k < len(name.split('|')) - 1 else '')) for k, p in enumerate(name.split('|')))
@@ -209,7 +214,8 @@ def shard_preset(sh):
                     st.violation('%s:%s' % (r.status, engine.sanitizer_summary(r.info)), script, '', engine.excerpt(r.info))
                     continue
                 snaps = r.all('snap ')
-                logs = [l for l in r.all('cb w ')]
+                first_snap = next(k for k, l in enumerate(r.lines) if l.startswith('snap '))
+                logs = [l for l in r.lines[first_snap:] if l.startswith('cb w ')]        # invocations made by the call itself
                 rc = [l for l in r.lines if l.startswith('r set')][-1]
                 leaf = name.split('|')[-1]
                 st.outcome('%d %s %s' % (mode, rc, snaps[-1]))
@@ -246,7 +252,7 @@ def main():
     engine.build(['asan'])
     quick = ck.tier == 'quick'
     dl = ck.deadline
-    engine.phase(ck, 'pre-set validation: setters x {pass, veto, rewrite} x 3 prior states', shard_preset, [dl])
+    engine.phase(ck, 'pre-set validation: setters x {pass, veto, rewrite} x 5 prior states', shard_preset, [dl])
     def main_phase(N):
         shards = []
         full = variant(127)
